@@ -56,6 +56,9 @@ type c08Prog struct {
 	// addresses, names, ...), provider type and signature bytes. The key - and with it the entry's signature - stays
 	// the writer's, so the entry verifies all the same.
 	Ident *c08Ident `json:"ident,omitempty"`
+	// KeyBuf (link-key codec): 0 the codec gets its key as usual; 1 from a buffer the caller wipes right after building
+	// the codec; 2 from a buffer the caller wipes after the entry is written (before it is read back)
+	KeyBuf int `json:"keyBuf,omitempty"`
 }
 
 type c08Ident struct {
@@ -135,6 +138,7 @@ func genC08(t *rapid.T) c08Prog {
 			p.Refs = append(p.Refs, p.Refs[0])
 		}
 	}
+	p.KeyBuf = rapid.SampledFrom([]int{0, 0, 1, 2}).Draw(t, "keyBuf")
 	return p
 }
 
@@ -261,9 +265,40 @@ func runC08(tb ev.TB, p c08Prog) ev.Result {
 	codec := world.Codec(p.Codec % 2)
 	io := world.IO(codec, 0)
 	provider := world.Identity(p.Writer).Provider
+	var keyBuf []byte
+	if codec == world.CodecLinkKey && p.KeyBuf > 0 {
+		// the key bytes live in a buffer of the caller's, which it wipes once the codec is built (1) or once the entry is
+		// written (2); the codec must go on using the key it was given
+		keyBuf = world.LinkKeyBytes(0)
+		io = world.IOFromBuffer(keyBuf)
+		if p.KeyBuf == 1 {
+			for i := range keyBuf {
+				keyBuf[i] = 0
+			}
+		}
+	}
 
 	s1 := fakeipfs.NewStore()
 	e := create(tb, s1, p, io)
+	if p.KeyBuf == 2 {
+		for i := range keyBuf {
+			keyBuf[i] = 0
+		}
+	}
+	if codec == world.CodecLinkKey {
+		// a second party holding the same key (its own codec object) reads exactly what was written
+		twin := world.IOFresh(world.CodecLinkKey, 0)
+		dt, err := entry.FromMultihashWithIO(ctx, s1.API(), e.GetHash(), provider, twin)
+		if err != nil {
+			tb.Fatalf("a codec built separately from the same key cannot read the entry back: %v", err)
+		}
+		if !sameCids(dt.GetNext(), e.GetNext()) || !sameCids(dt.GetRefs(), e.GetRefs()) {
+			tb.Fatalf("a codec built separately from the same key reads next %v refs %v, written next %v refs %v", dt.GetNext(), dt.GetRefs(), e.GetNext(), e.GetRefs())
+		}
+		if err := dt.Verify(provider, twin); err != nil {
+			tb.Fatalf("the entry read back by a codec built separately from the same key does not verify: %v", err)
+		}
+	}
 	noteCid("entry-"+codec.String(), e.GetHash())
 	raw, ok := s1.Raw(e.GetHash())
 	if !ok {
